@@ -159,13 +159,28 @@ def stepLine (st : St) (line : String) : St × List String :=
     | .panic _ => (st, ["recover panic", "end"])
     | .unmodelled w => (st, ["recover unmodelled " ++ w, "end"])
     | .fuel => (st, ["recover hang", "end"])
-  | "fimage" :: j :: _ :: _ :: ord :: _ =>
+  | "fimage" :: j :: _ :: _ :: ord :: more =>
     let order := ((ord.drop 6).toString.splitOn ",").filterMap (·.toNat?)
     let img : DB := { store := tornFlush st.preFlush order (natOr j), wal := st.db.wal }
+    let probes : List String := more.filterMap fun w => if w.startsWith "probe=" then some (w.drop 6).toString else none
     match recover img [] [] with
     | .ok db =>
-      let (_, tl) := tableLines { db with store := reopen db.store } st.tables
-      (st, ["recover ok"] ++ tl ++ ["end"])
+      let (db1, tl) := tableLines { db with store := reopen db.store } st.tables
+      if probes.isEmpty then (st, ["recover ok"] ++ tl ++ ["end"]) else
+      -- one more acknowledged statement, a second crash, a second recovery
+      let (db2, pl) := runProbes db1 st.tables probes
+      -- a statement that panics ends the inspection of the image
+      if pl.any (· == "hang") then
+        (st, ["recover ok"] ++ tl ++ (pl.takeWhile fun l => l != "hang") ++ ["hang", "end"]) else
+      if pl.any (· == "panic") then
+        (st, ["recover ok"] ++ tl ++ (pl.takeWhile fun l => l != "panic") ++ ["panic", "end"]) else
+      let againLines : List String := match recover { db2 with store := reopen db2.store } [] [] with
+        | .ok db3 => ["again ok"] ++ (tableLines { db3 with store := reopen db3.store } st.tables).2
+        | .err _ db3 => ["again initerr"] ++ (tableLines { db3 with store := reopen db3.store } st.tables).2
+        | .panic _ => ["again panic"]
+        | .unmodelled w => ["again unmodelled " ++ w]
+        | .fuel => ["again hang"]
+      (st, ["recover ok"] ++ tl ++ pl ++ againLines ++ ["end"])
     | .err _ db =>
       let (_, tl) := tableLines { db with store := reopen db.store } st.tables
       (st, ["recover initerr"] ++ tl ++ ["end"])
@@ -437,7 +452,7 @@ def judgeLine (j : J) (op : String) (outs : List String) : J × List String :=
     let rec0 := outs.head?.getD ""
     let short := (op.take 100).toString
     if rec0 != "recover ok" then (j, [vio j s!"db:fimage-recovery-failed:{cls}" s!"got=[{rec0}] op=[{short}]"]) else
-    let tabs := (outs.drop 1).filterMap fun l => match words l with
+    let tabs := ((outs.drop 1).takeWhile fun l => !l.startsWith "probe ").filterMap fun l => match words l with
       | "table" :: h :: _ => some ((bytesOfHex h).getD [], l)
       | _ => none
     let creating : Option Bytes := match kind, j.lastStmt with
@@ -451,8 +466,42 @@ def judgeLine (j : J) (op : String) (outs : List String) : J × List String :=
         else match tableOf l with
           | some (_, rows) => rows.map (·.2) != t.rows.map (·.vals)
           | none => true
-    if bad.isEmpty then (j, []) else
+    if !bad.isEmpty then
       (j, [vio j s!"db:fimage-loss:{cls}" s!"tables={bad.map fun b => hexOrDash b.1} op=[{short}] got=[{(((bad.map (·.2)).headD "").take 200).toString}]"])
+    else
+    -- one more acknowledged statement on the recovered image, a second crash, a second recovery:
+    -- the statement's effect must survive too (fault sequences)
+    match outs.find? (·.startsWith "probe ") with
+    | none => (j, [])
+    | some pl =>
+      let afterProbe := (outs.dropWhile (· != pl)).drop 1
+      let pout := afterProbe.head?.getD ""
+      match Mkdb.Driver.Exec.parseQuery [(pl.drop 6).toString] with
+      | some (.ok stmt) =>
+        let ptable : Bytes := match stmt with | .delete t _ => t | .insert t _ _ => t | .update t _ _ => t | _ => []
+        if pout != "ok" then
+          if some ptable == creating then (j, []) else (j, [vio j s!"db:fimage-later-statement-refused:{cls}" s!"got=[{pout}] op=[{short}]"])
+        else
+        match specStmt j.sdb stmt with
+        | none => (j, [])
+        | some sdb' =>
+          let again := (afterProbe.dropWhile fun l => !l.startsWith "again ")
+          let a0 := again.head?.getD ""
+          if a0 != "again ok" then (j, [vio j s!"db:fimage-second-recovery-failed:{cls}" s!"got=[{a0}] op=[{short}]"]) else
+          let tabs2 := (again.drop 1).filterMap fun l => match words l with
+            | "table" :: h :: _ => some ((bytesOfHex h).getD [], l)
+            | _ => none
+          let bad2 := tabs2.filter fun (n, l) =>
+            match findTable sdb' n with
+            | none => false
+            | some t =>
+              if some n == creating then false
+              else match tableOf l with
+                | some (_, rows) => rows.map (·.2) != t.rows.map (·.vals)
+                | none => true
+          if bad2.isEmpty then (j, []) else
+            (j, [vio j s!"db:fimage-later-statement-lost:{cls}" s!"tables={bad2.map fun b => hexOrDash b.1} op=[{short}] got=[{(((bad2.map (·.2)).headD "").take 200).toString}]"])
+      | _ => (j, [])
   | ["recover"] =>
     let out := outs.head?.getD ""
     if out == "ok" then ({ j with recovered := true }, [])
